@@ -103,14 +103,28 @@ def fs_data(E, path):
     return _OB.val(z3.Select(E.ghostv["fs"].t, path))
 
 
+def crash_point(E, what):
+    """a crash may happen right after this file-system mutation: the verified function's crash invariant (a statement about
+    the disk only) is an obligation here, so it holds at every prefix of the function's effect sequence"""
+    c = E.frames[0].contract if E.frames else None
+    if c is None or not c.crash_invariant or E.spec_mode:
+        return
+    env = dict(E.frames[0].env)
+    env.update(getattr(E, "entry_env", {}))
+    for inv in c.crash_invariant:
+        E.oblige("crash_prefix", E.spec_bool(inv, env, old=True), 0, "after %s: %s" % (what, inv))
+
+
 def fs_put(E, path, data):
     d = E.ghostv["fs"]
     E.ghostv["fs"] = SV(z3.Store(d.t, path, _OB.some(data)), d.ty)
+    crash_point(E, "a write to %s" % path)
 
 
 def fs_del(E, path):
     d = E.ghostv["fs"]
     E.ghostv["fs"] = SV(z3.Store(d.t, path, _OB.none), d.ty)
+    crash_point(E, "the removal of %s" % path)
 
 
 def open_file(E, a, kw, fr, node):
@@ -126,6 +140,13 @@ def open_file(E, a, kw, fr, node):
     if m in ("r", "r+"):
         E.may_raise("FileNotFoundError", z3.Not(fs_has(E, path)), line, "open(%s) of a missing file" % mode)
     elif m in ("w", "w+"):
+        from .paths import parent_check
+        parent_check(E, a[0], line, "open(%s)" % mode)
+        fs_put(E, path, z3.Empty(BYTES))
+    elif m in ("x", "x+"):
+        from .paths import parent_check
+        parent_check(E, a[0], line, "open(%s)" % mode)
+        E.may_raise("FileExistsError", fs_has(E, path), line, "open(%s) of an existing file" % mode)
         fs_put(E, path, z3.Empty(BYTES))
     else:
         raise Unsupported("open mode %r" % mode)
